@@ -252,6 +252,62 @@ def parse(s):
     return _PARSER.parse(s)
 
 
+def from_omega(t):
+    """Generic tree of an `omega.logic.ast` tree (duck-typed)."""
+    if isinstance(t, list):
+        return ('defs',) + tuple(from_omega(x) for x in t)
+    if hasattr(t, 'operator'):
+        op = t.operator
+        ops = t.operands
+        if op in ('\\A', '\\E'):
+            params, body = ops
+            names = []
+            for p_ in params.operands:
+                if hasattr(p_, 'operator'):
+                    names.append(p_.operands[0].value + "'")
+                else:
+                    names.append(p_.value)
+            return (op, tuple(names), from_omega(body))
+        if op == 'LET':
+            defs, body = ops
+            return ('LET', tuple(('==', d.operands[0].value,
+                                  from_omega(d.operands[1])) for d in defs),
+                    from_omega(body))
+        if op == '==':
+            return ('==', ops[0].value, from_omega(ops[1]))
+        if op == '\\in':
+            rng = ops[1]
+            return ('\\in', from_omega(ops[0]),
+                    ('..', rng.operands[0].value, rng.operands[1].value))
+        return (op,) + tuple(from_omega(o) for o in ops)
+    v = t.value
+    if getattr(t, 'type', None) == 'bool':
+        return v.upper()
+    return v
+
+
+def same_tree(a, b):
+    """Tree equality modulo the spelling classes (`'` = X, # = != ...)."""
+    def norm(t):
+        if isinstance(t, str):
+            return t
+        op = t[0]
+        op = {"'": 'X'}.get(op, op)
+        op = CANON.get(op, op)
+        op = SAME.get(op, op)
+        if op in ('\\A', '\\E'):
+            return (op, tuple(t[1]), norm(t[2]))
+        if op == 'LET':
+            return (op, tuple(('==', n, norm(b_)) for _, n, b_ in t[1]),
+                    norm(t[2]))
+        if op == '\\in':
+            return (op, norm(t[1]), t[2])
+        if op == 'IF':
+            op = 'ite'
+        return (op,) + tuple(norm(x) for x in t[1:])
+    return norm(a) == norm(b)
+
+
 # ---------------------------------------------------------------- printing
 
 def show(t):
